@@ -160,17 +160,21 @@ def expect_set(state, shape, ents, rhs):
     return new
 
 
+HIDE_DMASK = False
+
+
 def hide(o):
-    """projection: a derivative that is absent counts as zero (unmasked), and derivative
-    elements of masked target elements are not compared"""
+    """projection: a derivative that is absent counts as zero carrying the object's mask; a
+    derivative that is present shows its own mask state (HIDE_DMASK=True is the weaker historic
+    projection that ORs the object's mask in)"""
     shape, mm, vals = o['main']
     isz = max([len(v) for v in vals if v is not None] + [1])
     out = {'main': o['main'], 'derivs': {}}
     for k in sorted(DENOM):
         p = o['derivs'].get(k)
         if p is None:
-            p = zero_plain(shape, [False] * len(mm), isz * int(np.prod(DENOM[k])))
-        out['derivs'][k] = (p[0], [a or b for a, b in zip(p[1], mm)] if len(p[1]) == len(mm) else p[1], p[2])
+            p = zero_plain(shape, list(mm) if not HIDE_DMASK else [False] * len(mm), isz * int(np.prod(DENOM[k])))
+        out['derivs'][k] = (p[0], ([a or b for a, b in zip(p[1], mm)] if len(p[1]) == len(mm) else p[1]) if HIDE_DMASK else p[1], p[2])
     return out
 
 
@@ -357,7 +361,7 @@ def run(ctx):
                 'of the array-mask cases, sequences of 1-3 assignments, right-hand sides number/ndarray/object, '
                 'broadcastable (several ways) or not, 5%% malformed indices; non-trivial = array or masked entry, '
                 'or a sequence')
-    ctx.assumptions = ['derivative elements at masked target elements are not compared (hidden under the mask)',
+    ctx.assumptions = ['a derivative shows its own mask state; its elements are compared where it is unmasked; an absent derivative counts as zero carrying the mask of the object',
                        'a non-broadcastable right-hand side may be accepted silently when no element is selected',
                        'values are identifier tags; derivative denominators agree per key']
     if ctx.ensure_library():
